@@ -8,6 +8,7 @@ import (
 	"context"
 	"errors"
 	"fmt"
+	"golang.org/x/net/html"
 	"io"
 	"io/fs"
 	"sort"
@@ -33,6 +34,52 @@ type Program struct {
 	// Engine and NewVue mount a bare *memfs.FS accordingly; callers that build the engine
 	// themselves use p.Mount(p.FS()).
 	Store string `json:"store,omitempty"`
+	// Alt: a second page of the same site ("" = none); callers that support it render it next to
+	// page.vuego on the same engine (it lives in another directory and names the same layout).
+	Alt string `json:"alt,omitempty"`
+}
+
+// Counter is a stateful node processor, as docs/nodeprocessor.md allows them ("New ensures that
+// we can have render-scoped allocations"): PreProcess counts the elements of the template as it
+// was decoded, PostProcess stamps that count (and the number of PreProcess calls this instance
+// has seen) on the first element of the result. An instance that serves more than one render,
+// or two renders that exchange instances, show in the output.
+type Counter struct {
+	pre, elems int
+}
+
+// New returns the render-scoped instance.
+func (c *Counter) New() vuego.NodeProcessor { return &Counter{} }
+
+func countElems(n *html.Node) int {
+	k := 0
+	if n.Type == html.ElementNode {
+		k = 1
+	}
+	for c := n.FirstChild; c != nil; c = c.NextSibling {
+		k += countElems(c)
+	}
+	return k
+}
+
+// PreProcess counts.
+func (c *Counter) PreProcess(nodes []*html.Node) error {
+	c.pre++
+	for _, n := range nodes {
+		c.elems += countElems(n)
+	}
+	return nil
+}
+
+// PostProcess stamps.
+func (c *Counter) PostProcess(nodes []*html.Node) error {
+	for _, n := range nodes {
+		if n.Type == html.ElementNode {
+			n.Attr = append(n.Attr, html.Attribute{Key: "data-pre", Val: fmt.Sprintf("%d/%d", c.pre, c.elems)})
+			break
+		}
+	}
+	return nil
 }
 
 // Entries lists the Template entry points.
@@ -95,8 +142,23 @@ func (p Program) Engine(fsys fs.FS) vuego.Template {
 		if o == "components" {
 			opts = append(opts, vuego.WithComponents())
 		}
+		if o == "counter" {
+			opts = append(opts, vuego.WithProcessor(&Counter{}))
+		}
 	}
 	return vuego.NewFS(p.mounted(fsys), opts...)
+}
+
+// Reachable reports whether rendering page.vuego reads file f (files next to the Alt page
+// belong to that page alone).
+func (p Program) Reachable(f string) bool {
+	if p.Alt == "" {
+		return true
+	}
+	if i := strings.LastIndex(p.Alt, "/"); i >= 0 {
+		return !strings.HasPrefix(f, p.Alt[:i+1])
+	}
+	return f != p.Alt
 }
 
 // Applicable reports whether the program can be run through the entry point.
@@ -106,7 +168,7 @@ func (p Program) Applicable(entry string) bool {
 		return !p.FileOnly
 	case "vue", "frag":
 		// the *Vue methods parse front-matter but know nothing about layouts or options
-		return len(p.Opts) == 0 && !strings.Contains(strings.Join(p.Feat, " "), "layout")
+		return !strings.Contains(strings.Join(p.Opts, " "), "components") && !strings.Contains(strings.Join(p.Feat, " "), "layout")
 	}
 	return true
 }
@@ -147,7 +209,13 @@ func (p Program) RunVue(v *vuego.Vue, entry string, w io.Writer) error {
 
 // NewVue creates a fresh *Vue for the program.
 func (p Program) NewVue(fsys fs.FS) *vuego.Vue {
-	return vuego.NewVue(p.mounted(fsys)).Funcs(Funcs())
+	v := vuego.NewVue(p.mounted(fsys)).Funcs(Funcs())
+	for _, o := range p.Opts {
+		if o == "counter" {
+			v.RegisterNodeProcessor(&Counter{})
+		}
+	}
+	return v
 }
 
 // Run renders the program on a fresh engine over a fresh filesystem.
@@ -230,6 +298,23 @@ func All() []Program {
 			"layouts/shell.vuego": `<html><head><title>{{ title }}</title></head><body><header><slot name="head" :n="1"></slot></header><ul><li v-for="k in rows"><slot name="head" :n="k"></slot></li></ul><div v-html="content"></div><template include="frame.vuego"></template><footer><slot name="foot">no foot</slot></footer>` + end + `</body></html>`,
 			"frame.vuego":         `<section><slot name="foot">frame-fallback</slot><slot name="nope">nope-fallback</slot></section>`,
 		}, Data: map[string]vals.V{"who": s("handWHO"), "rows": vals.List("[]any", vals.Int(2), vals.Int(3))}, Feat: []string{"layout", "front-matter", "slot", "handover"}},
+		// a registered stateful node processor (render-scoped state via New)
+		{Name: "proc-counter", Opts: []string{"counter"}, Files: map[string]string{
+			"page.vuego": `<section><p v-for="r in rows">{{ r }} {{ who }}</p><template include="c.vuego" :v="who"></template></section>` + end,
+			"c.vuego":    `<div><b>{{ v }}</b><i>c</i></div>`,
+		}, Data: map[string]vals.V{"who": s("procWHO"), "rows": list("a", "b", "c")}, Feat: []string{"processor", "include"}},
+		{Name: "proc-counter-layout", Opts: []string{"counter"}, FileOnly: true, Files: map[string]string{
+			"page.vuego":          "---\nlayout: shell\ntitle: ProcTitle\n---\n" + `<article><p>{{ who }}</p><p>two</p></article>`,
+			"layouts/shell.vuego": `<html><head><title>{{ title }}</title></head><body><main v-html="content"></main>` + end + `</body></html>`,
+		}, Data: map[string]vals.V{"who": s("procLWHO")}, Feat: []string{"processor", "layout", "front-matter"}},
+		// two pages in different directories name the same layout: the one next to a page wins
+		// for that page only, the other page gets layouts/frame.vuego
+		{Name: "layout-sibling", FileOnly: true, Alt: "sub/page.vuego", Files: map[string]string{
+			"page.vuego":          "---\nlayout: frame\n---\n" + `<p>root page {{ who }}</p>`,
+			"sub/page.vuego":      "---\nlayout: frame\n---\n" + `<p>sub page {{ who }}</p>`,
+			"sub/frame.vuego":     `<html><body data-frame="sub"><div v-html="content"></div>` + end + `</body></html>`,
+			"layouts/frame.vuego": `<html><body data-frame="layouts"><div v-html="content"></div>` + end + `</body></html>`,
+		}, Data: map[string]vals.V{"who": s("sibWHO")}, Feat: []string{"layout", "front-matter", "sibling-layout"}},
 		// front-matter plus writes into the page's root scope; rendered without any data the
 		// root scope is (a copy of) the cached front-matter
 		{Name: "fm-root-write", FileOnly: true, Files: map[string]string{
